@@ -219,9 +219,10 @@ def conclude(pid, tier, seed, mod, mod_name, names, results, t0):
             if len(samples) < 6:
                 samples.append({'instance': n, **s})
         for pm in r['path_models']:
-            if 'expect' in pm and not pm.get('float_uncertain'):
+            if 'expect' in pm:
                 selfcheck_cases.append({'kind': 'selfcheck', 'instance': n, 'params': r['params'],
-                                        'inputs': pm['inputs'], 'expect': pm['expect']})
+                                        'inputs': pm['inputs'], 'expect': pm['expect'],
+                                        'float_uncertain': pm.get('float_uncertain', 0)})
         if not r['complete']:
             for a in r['aborted'][:2]:
                 inconclusive.append(f'{n}: {a[0]}: {a[1]}')
@@ -290,6 +291,7 @@ def conclude(pid, tier, seed, mod, mod_name, names, results, t0):
 
     # per-path concolic self-check
     self_checked = 0
+    self_uncertain = 0
     if selfcheck_cases and hasattr(mod, 'observe'):
         try:
             res = replay_cases(mod_name, selfcheck_cases[:400])
@@ -297,6 +299,11 @@ def conclude(pid, tier, seed, mod, mod_name, names, results, t0):
                 if r.get('skipped'):
                     continue
                 self_checked += 1
+                if not r.get('match', False) and c.get('float_uncertain'):
+                    # the path took a nondeterministic float-rounding alternative that the real
+                    # double arithmetic does not take for this input: not a model error
+                    self_uncertain += 1
+                    continue
                 if not r.get('match', False):
                     machinery.append(
                         f'self-check mismatch in {c["instance"]}: inputs={json.dumps(c["inputs"], default=str)[:300]} '
@@ -318,7 +325,8 @@ def conclude(pid, tier, seed, mod, mod_name, names, results, t0):
         'coverage': {
             'states': max(1, totals['paths']),
             'transitions': max(1, totals['decisions']),
-            'traces_validated_against_impl': self_checked + model_validations + replays,
+            'traces_validated_against_impl': self_checked - self_uncertain + model_validations + replays,
+            'self_check_float_uncertain_skipped': self_uncertain,
             'samples': samples or [{'note': 'no complete path'}],
             'obligations': n_obl, 'discharged': n_dis,
             'obligation_status': {k: {'status': v['status'], 'paths': v['paths'], 'proved_on_paths': v['proved'],
